@@ -1090,12 +1090,10 @@ func (w *acWorld) exec(line string) acOutcome {
 		for _, sec := range w.secrets(l) {
 			if strings.Contains(r.text, sec) && !strings.Contains(reqText, sec) {
 				tag := ""
-				switch {
-				case r.code != "ok" && sec == w.projs[l].id:
+				if r.code != "ok" && sec == w.projs[l].id {
 					tag = "KNOWN[c13-error-message-discloses] " // only the owning project's id in an error text is the listed finding
-				case r.code == "ok" && svc+"/"+method == "YorkieService/GetRevision" && target == "frev":
-					tag = "KNOWN[c13-getrevision-global] "
 				}
+				// (GetRevision disclosing a foreign snapshot was repaired by /repo ddb0dfd3: a plain violation if it returns)
 				c.Oracle("%sresponse discloses data of project %s (%q) to: %s -> %s", tag, l, sec, line, r.code)
 				break
 			}
@@ -1217,8 +1215,6 @@ func runAccess(c *Ctx) error {
 					case f.code != o.code && f.code == "ok":
 						tag := ""
 						switch acArg(t, "proc") {
-						case "GetRevision":
-							tag = "KNOWN[c13-getrevision-global] "
 						case "DetachChannel", "RefreshChannel":
 							tag = "KNOWN[c13-session-global] "
 						}
